@@ -106,14 +106,14 @@ class ContinuousCarver(BaseCarver):
         x_copy, x_dev_copy = super()._prepare_data(X, y, X_dev=X_dev, y_dev=y_dev)
 
         # continuous target, checking values
-        y_values = unique(y)
-        assert (
-            len(y_values) > 2
-        ), " - [ContinuousCarver] provided y is binary, consider using BinaryCarver instead."
         not_numeric = str in y.apply(type).unique()
         assert (
             not not_numeric
         ), " - [ContinuousCarver] y must be a continuous Series (int or float, not object)"
+        y_values = unique(y)
+        assert (
+            len(y_values) > 2
+        ), " - [ContinuousCarver] provided y is binary, consider using BinaryCarver instead."
 
         return x_copy, x_dev_copy
 
